@@ -130,6 +130,8 @@ impl<W: Write + Send> Write for SequentialWriter<W> {
             v.recv().unwrap()
         }
         self.trigger = None;
+        #[cfg(tiny_http_verif)]
+        crate::verif::point(crate::verif::FP_SEQW_TURN, 0, buf.len());
 
         self.writer.lock().unwrap().write(buf)
     }
@@ -139,6 +141,8 @@ impl<W: Write + Send> Write for SequentialWriter<W> {
             v.recv().unwrap()
         }
         self.trigger = None;
+        #[cfg(tiny_http_verif)]
+        crate::verif::point(crate::verif::FP_SEQW_TURN, 1, 0);
 
         self.writer.lock().unwrap().flush()
     }
@@ -153,10 +157,14 @@ where
 
         match inner {
             SequentialReaderInner::MyTurn(reader) => {
+                #[cfg(tiny_http_verif)]
+                crate::verif::point(crate::verif::FP_READER_HANDOFF, 0, 0);
                 self.next.send(reader).ok();
             }
             SequentialReaderInner::Waiting(recv) => {
                 let reader = recv.recv().unwrap();
+                #[cfg(tiny_http_verif)]
+                crate::verif::point(crate::verif::FP_READER_HANDOFF, 1, 0);
                 self.next.send(reader).ok();
             }
             SequentialReaderInner::Empty => (),
